@@ -288,11 +288,11 @@ m("ident_dash_allowed_in_tail", ["C18"], "src/utils.rs",
   "            ch == b'_' || ch == b'-' || ch.is_ascii_lowercase() || ch.is_ascii_uppercase() || ch.is_ascii_digit()")
 
 # ---------------------------------------------------------------------------------- C19 (schema)
-m("schema_symbol_as_u16", ["C19"], "src/interner.rs",
-  "        gen.subschema_for::<u32>()\n    }\n}\n\n/// A symbol from an interner.",
-  "        gen.subschema_for::<u16>()\n    }\n}\n\n/// A symbol from an interner.")
-
 # ------------------------------------------------------------------------------- C20 (rejections)
+m("schema_symbol_as_string", ["C19"], "src/interner.rs",
+  "        gen.subschema_for::<u32>()\n    }\n}\n\n/// A symbol from an interner.",
+  "        gen.subschema_for::<String>()\n    }\n}\n\n/// A symbol from an interner.")
+
 m("attr_duplicate_capture_docs_allowed", ["C20"], "derive/src/attr.rs",
   "                        if capture_docs.is_some() {\n                            return Err(syn::Error::new(",
   "                        if capture_docs.is_some() && false {\n                            return Err(syn::Error::new(")
@@ -302,9 +302,9 @@ m("attr_invalid_capture_docs_means_default", ["C20"], "derive/src/attr.rs",
 m("attr_unbound_param_check_skipped_with_skip_attr", ["C20"], "derive/src/attr.rs",
   "        if let Some(ref bounds) = bounds {\n            for type_param in item.generics.type_params() {",
   "        if let (Some(ref bounds), None) = (&bounds, &skip_type_params) {\n            for type_param in item.generics.type_params() {")
-m("build_variant_index_optional", ["C20"], "src/build.rs",
-  "        B: Fn(VariantBuilder<F>) -> VariantBuilder<F, variant_state::IndexAssigned>,\n    {\n        let builder = builder(VariantBuilder::new(name));",
-  "        B: Fn(VariantBuilder<F>) -> VariantBuilder<F, variant_state::IndexAssigned>,\n    {\n        let builder = builder(VariantBuilder::new(name));\n        let _ = &builder;")
+m("build_variant_closure_state_generic", ["C20"], "src/build.rs",
+  "    pub fn variant<B>(mut self, name: F::String, builder: B) -> Self\n    where\n        B: Fn(VariantBuilder<F>) -> VariantBuilder<F, variant_state::IndexAssigned>,\n    {\n        let builder = builder(VariantBuilder::new(name));\n        self.variants.push(builder.finalize());",
+  "    pub fn variant<B, S>(mut self, name: F::String, builder: B) -> Self\n    where\n        B: Fn(VariantBuilder<F>) -> VariantBuilder<F, S>,\n    {\n        let b = builder(VariantBuilder::new(name));\n        let index = b.index.unwrap_or(self.variants.len() as u8);\n        self.variants.push(Variant::new(b.name, b.fields, index, b.docs));")
 
 
 def main():
